@@ -36,3 +36,90 @@ func VerifC02Prefixed() {
 	}
 	vReach("end")
 }
+
+var vC02Verbs = []string{
+	"001", "433", "CTCP", "NICK", "PING", "CAP", "410", "AUTHENTICATE", "903", "904", "908",
+	"JOIN", "KICK", "MODE", "PART", "QUIT", "TOPIC", "311", "324", "332", "352", "353", "671",
+	"PRIVMSG", "NOTICE",
+}
+
+func vNewConn(track bool) *Conn {
+	conn := Client(NewConfig("me"))
+	conn.out = make(chan string, 128)
+	conn.in = make(chan *Line, 16)
+	if track {
+		conn.EnableStateTracking()
+	}
+	return conn
+}
+
+// C02 (b): every built-in handler, with too few / empty / odd parameters, with
+// and without state tracking (the real tracker underneath): no panic escapes
+// the dispatcher (panics inside a handler are caught by the configured Recover).
+func VerifC02Handlers() {
+	track := vLen("track", 0, 1) == 1
+	conn := vNewConn(track)
+	if track {
+		// a little state so that handlers find a channel and a nick
+		conn.st.NewChannel("#c")
+		conn.st.Associate("#c", "me")
+		conn.st.NewNick("n")
+		conn.st.Associate("#c", "n")
+	}
+	v := vLen("verb", 0, len(vC02Verbs)-1)
+	src := ""
+	if vLen("hassrc", 0, 1) == 1 {
+		src = ":n!u@h "
+	}
+	rest := vStr("rest", vLen("restlen", 0, vParam("L", 4)))
+	vASCII(rest)
+	s := src + vC02Verbs[v] + rest
+	l := ParseLine(s)
+	if l != nil {
+		conn.dispatch(l)
+		vRunPending()
+	}
+	_ = vDrain(conn)
+	vReach("end")
+}
+
+// C02 (c): whatever bytes precede it, a well-formed line that follows is still
+// read, parsed and queued by the real recv loop; nothing panics. The byte stream
+// is delivered in one or two reads with a symbolic cut.
+func VerifC02Recv() {
+	conn := vNewConn(false)
+	junk := vStr("junk", vLen("junklen", 0, vParam("L", 4)))
+	vASCII(junk)
+	stream := junk + "\n" + "PRIVMSG #c :hi\r\n"
+	cut := vLen("cut", 0, len(junk)+2)
+	var w *vWire
+	if cut == 0 {
+		w = vNewWire(stream)
+	} else {
+		w = vNewWire(stream[:cut], stream[cut:])
+	}
+	conn.sock = w
+	conn.postConnect(nil, false)
+	conn.wg.Add(1)
+	conn.recv()
+	var last *Line
+	n := 0
+	for {
+		var l *Line
+		select {
+		case l = <-conn.in:
+		default:
+		}
+		if l == nil {
+			break
+		}
+		last = l
+		n++
+	}
+	vAssert(n >= 1, "something-queued")
+	if last != nil {
+		vAssert(last.Cmd == "PRIVMSG" && len(last.Args) == 2 && last.Args[0] == "#c" && last.Args[1] == "hi", "later-line-processed")
+		vAssert(last.Raw == "PRIVMSG #c :hi", "later-line-raw")
+	}
+	vReach("end")
+}
